@@ -45,7 +45,10 @@ METHODS = ['GET', 'GET', 'HEAD', 'POST', 'OPTIONS']
 HEADER_SETS = [{'If-Modified-Since': 'Fri, 01 Jan 2100 00:00:00 GMT'}, {'If-Modified-Since': 'Thu, 01 Jan 1970 00:00:10 GMT'},
                {}, {'Accept': 'text/html'}, {'Accept': 'application/json'}, {'Accept-Encoding': 'gzip'},
                {'Accept-Encoding': 'gzip', 'Accept': 'text/html'}, {'If-None-Match': '"x"'},
-               {'Accept': '*/*', 'User-Agent': 'sim/1.0', 'X-Forwarded-For': '10.1.1.1'}]
+               {'Accept': '*/*', 'User-Agent': 'sim/1.0', 'X-Forwarded-For': '10.1.1.1'},
+               # range requests: satisfiable, open-ended, beyond the end, several ranges, malformed, with If-Range
+               {'Range': 'bytes=0-9'}, {'Range': 'bytes=100000000-'}, {'Range': 'bytes=16-'}, {'Range': 'bytes=-5'}, {'Range': 'bytes=5-1'},
+               {'Range': 'bytes=0-0,2-3'}, {'Range': 'lines=1-2'}, {'Range': 'bytes=0-9', 'If-Range': '"nope"'}, {'Range': 'bytes=27-'}]
 
 
 class SimFileWrapper(object):
@@ -183,7 +186,7 @@ class C13(Check):
     level_text = ('Seeded search over server behaviours x response kinds x wrapper stacks with a protocol monitor; the '
                   'route-kind x method x consumption x file-wrapper grid is swept once per run for a sampled wrapper stack.')
     level_note = 'Trusted: wsgiref.validate as the reading of PEP 3333; the monitor in sim/core/gateway.py.'
-    required_probes = ('wrapper-object-falsy-at-construction', 'filesystem-error-after-the-file-was-opened', 'big-file-without-extension-served', 'reroute-target-with-other-parameter-names', 'wrapper-passes-copy-of-environ', 'wrapper-decorates-start-response', 'empty-file-through-server-file-wrapper', 'reroute-to-wrapped-application', 'conditional-static-304', 'reroute-through-rewritten-path', 'first-requests-concurrent', 'file-released-after-abort', 'file-released-without-iteration', 'head-no-body', 'reroute-same-environ',
+    required_probes = ('range-request-on-static-file', 'wrapper-object-falsy-at-construction', 'filesystem-error-after-the-file-was-opened', 'big-file-without-extension-served', 'reroute-target-with-other-parameter-names', 'wrapper-passes-copy-of-environ', 'wrapper-decorates-start-response', 'empty-file-through-server-file-wrapper', 'reroute-to-wrapped-application', 'conditional-static-304', 'reroute-through-rewritten-path', 'first-requests-concurrent', 'file-released-after-abort', 'file-released-without-iteration', 'head-no-body', 'reroute-same-environ',
                        'custom-file-wrapper-used', 'debug-500', 'gzip-applied')
 
     def generate(self, seed, tier):
@@ -537,6 +540,10 @@ class C13(Check):
                   'branch': 302, 'missing': 404, 'boom': 500, 'http403': 403, 'meta': 200, 'meta-json': 200, 'gz': 200,
                   'cache': 200, 'sub-ok': 200, 'empty': 200, 'bytes-big': 200}
         want = expect.get(route)
+        if 'Range' in op['headers'] and route.startswith('static'):
+            res.probe('range-request-on-static-file')
+            if ex.code in (206, 416):
+                want = None       # a server may or may not honour ranges; whatever it answers, the protocol and ledger checks above apply
         if 'If-Modified-Since' in op['headers'] and route.startswith('static') and ex.code == 304:
             res.probe('conditional-static-304')
             want = None
